@@ -25,6 +25,12 @@ func (t Type) IsValid([]byte) error {
 		return util.ErrInvalid.Errorf("invalid char found in Type")
 	}
 
+	// NOTE hint string is splitted into type and version by the first
+	// '-v<digit>'; it should not be found in type.
+	if regVersion.Match([]byte(t)) {
+		return util.ErrInvalid.Errorf("version like string found in Type")
+	}
+
 	return nil
 }
 
